@@ -1161,6 +1161,280 @@ theorem client_request_dispatched (c : B64) (hc : c.Lawful) (r : Req) (m : Msg) 
     Bool.and_false, hlen, hbody, batchGateRejects, Bool.false_and, List.findSome?_cons, hgate, List.findSome?_nil, hsole,
     hagree, List.any_cons, hreq, Bool.true_and, List.any_nil, Bool.or_false]
 
+/-! ## `params` is decoded with exact member names (a foreign peer's case-variant and repeated members)
+
+The gates compare the headers with what `RawMsg.decode` reads off the member list of `params`: the value of the member
+called exactly `name` / `uri` (the last one if repeated), the `arguments` / `_meta` members called exactly so.  These are
+the members the dispatcher (the same decoder, `internal/json`) hands to the handler.  A member whose name differs from
+them — in particular one that differs only in case, which `encoding/json` would accept as the same member — has no
+influence on any gate. -/
+
+/-- A member with another name (e.g. a case variant) does not change the decoded string field — wherever it stands. -/
+theorem strFieldFrom_ignores_other_key (key k' : Bytes) (v : JV) (hne : k' ≠ key) (ms₁ ms₂ : List (Bytes × JV))
+    (cur : Bytes) : strFieldFrom key cur (ms₁ ++ (k', v) :: ms₂) = strFieldFrom key cur (ms₁ ++ ms₂) := by
+  induction ms₁ generalizing cur with
+  | nil => simp [strFieldFrom, hne]
+  | cons x xs ih =>
+    obtain ⟨k, w⟩ := x
+    simp only [List.cons_append, strFieldFrom]
+    split
+    · cases w <;> simp only [ih]
+    · exact ih cur
+
+/-- A member with another name does not change the decoded map field (`arguments`, `_meta`). -/
+theorem mapFieldFrom_ignores_other_key (key k' : Bytes) (v : JV) (hne : k' ≠ key) (ms₁ ms₂ : List (Bytes × JV))
+    (cur : Option (List (Bytes × JV))) :
+    mapFieldFrom key cur (ms₁ ++ (k', v) :: ms₂) = mapFieldFrom key cur (ms₁ ++ ms₂) := by
+  induction ms₁ generalizing cur with
+  | nil => simp [mapFieldFrom, hne]
+  | cons x xs ih =>
+    obtain ⟨k, w⟩ := x
+    simp only [List.cons_append, mapFieldFrom]
+    split
+    · cases w <;> simp only [ih]
+    · exact ih cur
+
+/-- **name_mirror_case_sensitive.** The value `Mcp-Name` is compared with does not depend on a member of `params` whose
+name is not exactly the identifying member's (`name` for tools/call and prompts/get, `uri` for resources/read) — before
+or after the real member, whatever its value, in particular a member whose name differs only in case (`"Name"`,
+`"NAME"`, `"URI"`). -/
+theorem name_mirror_case_sensitive (method key k' : Bytes) (v : JV) (ms₁ ms₂ : List (Bytes × JV))
+    (hk : nameMemberOf method = some key) (hne : k' ≠ key) :
+    decodeName method (.obj (ms₁ ++ (k', v) :: ms₂)) = decodeName method (.obj (ms₁ ++ ms₂)) := by
+  simp only [decodeName, hk]
+  exact strFieldFrom_ignores_other_key key k' v hne ms₁ ms₂ []
+
+theorem rawFieldFrom_ignores_other_key (key k' : Bytes) (v : JV) (hne : k' ≠ key) (ms₁ ms₂ : List (Bytes × JV))
+    (cur : Option JV) : rawFieldFrom key cur (ms₁ ++ (k', v) :: ms₂) = rawFieldFrom key cur (ms₁ ++ ms₂) := by
+  induction ms₁ generalizing cur with
+  | nil => simp [rawFieldFrom, hne]
+  | cons x xs ih =>
+    obtain ⟨k, w⟩ := x
+    simp only [List.cons_append, rawFieldFrom]
+    split
+    · exact ih _
+    · exact ih cur
+
+/-- The same for the arguments the `Mcp-Param-*` headers are compared with (`"Arguments"` is not `"arguments"`). -/
+theorem args_mirror_case_sensitive (k' : Bytes) (v : JV) (ms₁ ms₂ : List (Bytes × JV)) (hne : k' ≠ memberArguments) :
+    decodeArgs (.obj (ms₁ ++ (k', v) :: ms₂)) = decodeArgs (.obj (ms₁ ++ ms₂)) := by
+  simp only [decodeArgs, rawFieldFrom_ignores_other_key memberArguments k' v hne]
+
+/-- **args_are_last_member.** The arguments the `Mcp-Param-*` headers are compared with are those of the LAST member
+called exactly `arguments` — the member the dispatcher hands to the handler — whatever members (earlier `arguments`
+members included) precede it. -/
+theorem args_are_last_member (ms₁ ms₂ : List (Bytes × JV)) (v : JV)
+    (hlast : ∀ kv ∈ ms₂, kv.1 ≠ memberArguments) :
+    decodeArgs (.obj (ms₁ ++ (memberArguments, v) :: ms₂)) = decodeArgs (.obj [(memberArguments, v)]) := by
+  have h2 : ∀ cur, rawFieldFrom memberArguments cur ms₂ = cur := by
+    induction ms₂ with
+    | nil => intro cur; rfl
+    | cons x xs ih =>
+      intro cur
+      obtain ⟨k, w⟩ := x
+      have hk : k ≠ memberArguments := hlast (k, w) (by simp)
+      simp only [rawFieldFrom, hk, if_false]
+      exact ih (fun kv hkv => hlast kv (List.mem_cons_of_mem _ hkv)) cur
+  have h1 : ∀ cur, rawFieldFrom memberArguments cur (ms₁ ++ (memberArguments, v) :: ms₂) = some v := by
+    induction ms₁ with
+    | nil => intro cur; simp [rawFieldFrom, h2]
+    | cons x xs ih =>
+      intro cur
+      obtain ⟨k, w⟩ := x
+      simp only [List.cons_append, rawFieldFrom]
+      split <;> exact ih _
+  simp only [decodeArgs, h1, rawFieldFrom, if_true]
+
+/-- The same for the `_meta` protocol version the version header is compared with (`"_META"` is not `"_meta"`). -/
+theorem meta_mirror_case_sensitive (k' : Bytes) (v : JV) (ms₁ ms₂ : List (Bytes × JV)) (hne : k' ≠ memberMeta) :
+    decodeMetaVersion (.obj (ms₁ ++ (k', v) :: ms₂)) = decodeMetaVersion (.obj (ms₁ ++ ms₂)) := by
+  simp only [decodeMetaVersion, mapFieldFrom_ignores_other_key memberMeta k' v hne]
+
+/-- **decode_ignores_foreign_member.** A member of `params` whose name is none of the identifying member's, `arguments`
+and `_meta` leaves everything the gates see of the message unchanged … -/
+theorem decode_ignores_foreign_member (m : RawMsg) (k' : Bytes) (v : JV) (ms₁ ms₂ : List (Bytes × JV))
+    (hn : ∀ key, nameMemberOf m.method = some key → k' ≠ key) (ha : k' ≠ memberArguments) (hm : k' ≠ memberMeta) :
+    ({ m with params := .obj (ms₁ ++ (k', v) :: ms₂) } : RawMsg).decode =
+      ({ m with params := .obj (ms₁ ++ ms₂) } : RawMsg).decode := by
+  have hname : decodeName m.method (.obj (ms₁ ++ (k', v) :: ms₂)) = decodeName m.method (.obj (ms₁ ++ ms₂)) := by
+    cases hk : nameMemberOf m.method with
+    | none => simp [decodeName, hk]
+    | some key => exact name_mirror_case_sensitive m.method key k' v ms₁ ms₂ hk (hn key hk)
+  simp only [RawMsg.decode, hname, args_mirror_case_sensitive k' v ms₁ ms₂ ha, meta_mirror_case_sensitive k' v ms₁ ms₂ hm]
+
+/-- … and therefore the answer of every handler to a body containing the message: the decoy member cannot take a request
+past (or make it fail) any gate. -/
+theorem verdict_ignores_foreign_member (c : B64) (r : Req) (isBatch : Bool) (pre post : List Msg) (m : RawMsg)
+    (k' : Bytes) (v : JV) (ms₁ ms₂ : List (Bytes × JV))
+    (hn : ∀ key, nameMemberOf m.method = some key → k' ≠ key) (ha : k' ≠ memberArguments) (hm : k' ≠ memberMeta) :
+    verdict c { r with content := .msgs isBatch (pre ++ ({ m with params := .obj (ms₁ ++ (k', v) :: ms₂) } : RawMsg).decode :: post) } =
+      verdict c { r with content := .msgs isBatch (pre ++ ({ m with params := .obj (ms₁ ++ ms₂) } : RawMsg).decode :: post) } := by
+  rw [decode_ignores_foreign_member m k' v ms₁ ms₂ hn ha hm]
+
+/-- An entry of an object under another name does not change what is found under `k` (`fieldGet`: entries of `_meta`, of
+`arguments`, of a nested argument object). -/
+theorem fieldGet_ignores_other_key (k k' : Bytes) (v : JV) (hne : k' ≠ k) (f₁ f₂ : List (Bytes × JV)) :
+    fieldGet k (f₁ ++ (k', v) :: f₂) = fieldGet k (f₁ ++ f₂) := by
+  induction f₁ with
+  | nil =>
+    simp only [List.nil_append, fieldGet]
+    cases fieldGet k f₂ <;> simp [hne]
+  | cons x xs ih =>
+    obtain ⟨k₀, w⟩ := x
+    simp only [List.cons_append, fieldGet, ih]
+
+/-- **arg_member_case_sensitive.** The argument a binding's path designates does not depend on a member (of `arguments`,
+or of a nested argument object on the path) whose name is not exactly the path's next name — e.g. `"Region"` next to the
+bound `"region"`: `Mcp-Param-*` mirrors the member called exactly as the schema says. -/
+theorem arg_member_case_sensitive (k k' : Bytes) (v : JV) (hne : k' ≠ k) (f₁ f₂ : List (Bytes × JV)) (rest : List Bytes) :
+    lookupArgument (f₁ ++ (k', v) :: f₂) (k :: rest) = lookupArgument (f₁ ++ f₂) (k :: rest) := by
+  cases rest with
+  | nil => simp only [lookupArgument, fieldGet_ignores_other_key k k' v hne]
+  | cons k₂ rest => simp only [lookupArgument, fieldGet_ignores_other_key k k' v hne]
+
+theorem fieldGet_append (k : Bytes) (a f : List (Bytes × JV)) :
+    fieldGet k (a ++ f) = (match fieldGet k f with | some x => some x | none => fieldGet k a) := by
+  induction a with
+  | nil => cases h : fieldGet k f <;> simp [fieldGet, h]
+  | cons x xs ih =>
+    obtain ⟨k₀, w⟩ := x
+    simp only [List.cons_append, fieldGet, ih]
+    cases fieldGet k f <;> simp
+
+/-- Two runs of the map decoding whose maps so far agree under `k` end alike: both fail, or both succeed with maps that
+agree under `k`. -/
+theorem mapFieldFrom_agree (key k : Bytes) (ms : List (Bytes × JV)) (c₁ c₂ : Option (List (Bytes × JV)))
+    (h : fieldGet k (c₁.getD []) = fieldGet k (c₂.getD [])) :
+    (mapFieldFrom key c₁ ms).map (fun o => fieldGet k (o.getD [])) =
+      (mapFieldFrom key c₂ ms).map (fun o => fieldGet k (o.getD [])) := by
+  induction ms generalizing c₁ c₂ with
+  | nil => simp [mapFieldFrom, h]
+  | cons x xs ih =>
+    obtain ⟨k₀, w⟩ := x
+    simp only [mapFieldFrom]
+    split
+    · cases w with
+      | obj f =>
+        apply ih
+        simp only [Option.getD_some, fieldGet_append, h]
+      | null => exact ih none none rfl
+      | bool b => rfl
+      | num l => rfl
+      | str t => rfl
+      | arr => rfl
+    · exact ih c₁ c₂ h
+
+theorem decodeMetaVersion_eq (ms : List (Bytes × JV)) :
+    decodeMetaVersion (.obj ms) =
+      (match (mapFieldFrom memberMeta none ms).map (fun o => fieldGet metaKeyProtocolVersion (o.getD [])) with
+       | some (some (.str s)) => s
+       | _ => []) := by
+  simp only [decodeMetaVersion]
+  cases h : mapFieldFrom memberMeta none ms with
+  | none => simp
+  | some o =>
+    cases o with
+    | none => simp [fieldGet]
+    | some f =>
+      simp only [Option.map_some, Option.getD_some]
+      cases fieldGet metaKeyProtocolVersion f with
+      | none => rfl
+      | some w => cases w <;> rfl
+
+/-- **meta_key_case_sensitive.** The `_meta` protocol version the header is compared with does not depend on an entry of
+`_meta` whose key is not exactly `io.modelcontextprotocol/protocolVersion` (e.g. a key differing only in case) —
+whichever `_meta` member carries it and whatever else `params` contains (repeated `_meta` members are merged). -/
+theorem meta_key_case_sensitive (k' : Bytes) (v : JV) (hne : k' ≠ metaKeyProtocolVersion)
+    (ms₁ ms₂ f₁ f₂ : List (Bytes × JV)) :
+    decodeMetaVersion (.obj (ms₁ ++ (memberMeta, .obj (f₁ ++ (k', v) :: f₂)) :: ms₂)) =
+      decodeMetaVersion (.obj (ms₁ ++ (memberMeta, .obj (f₁ ++ f₂)) :: ms₂)) := by
+  rw [decodeMetaVersion_eq, decodeMetaVersion_eq]
+  have key : ∀ c : Option (List (Bytes × JV)),
+      (mapFieldFrom memberMeta c (ms₁ ++ (memberMeta, .obj (f₁ ++ (k', v) :: f₂)) :: ms₂)).map
+          (fun o => fieldGet metaKeyProtocolVersion (o.getD [])) =
+        (mapFieldFrom memberMeta c (ms₁ ++ (memberMeta, .obj (f₁ ++ f₂)) :: ms₂)).map
+          (fun o => fieldGet metaKeyProtocolVersion (o.getD [])) := by
+    induction ms₁ with
+    | nil =>
+      intro c
+      simp only [List.nil_append, mapFieldFrom, if_true]
+      apply mapFieldFrom_agree
+      simp only [Option.getD_some, ← List.append_assoc]
+      exact fieldGet_ignores_other_key _ _ v hne _ _
+    | cons x xs ih =>
+      intro c
+      obtain ⟨k₀, w⟩ := x
+      simp only [List.cons_append, mapFieldFrom]
+      split
+      · cases w <;> simp only [ih]
+      · exact ih c
+  rw [key none]
+
+/-- The string values of the members called exactly `key`, in source order. -/
+def exactStrings (key : Bytes) (ms : List (Bytes × JV)) : List Bytes :=
+  ms.filterMap (fun kv => if kv.1 = key then (match kv.2 with | .str s => some s | _ => none) else none)
+
+theorem strFieldFrom_last (key : Bytes) (ms : List (Bytes × JV)) (cur s : Bytes)
+    (h : strFieldFrom key cur ms = some s) : s = ((exactStrings key ms).getLast?).getD cur := by
+  induction ms generalizing cur with
+  | nil => simpa [strFieldFrom, exactStrings] using h.symm
+  | cons x xs ih =>
+    obtain ⟨k, w⟩ := x
+    simp only [strFieldFrom] at h
+    by_cases hk : k = key
+    · simp only [hk, if_true] at h
+      cases w with
+      | str t =>
+        have := ih t h
+        simp only [exactStrings, List.filterMap_cons, hk, if_true] at this ⊢
+        rw [List.getLast?_cons]
+        simpa using this
+      | null =>
+        have := ih cur h
+        simpa [exactStrings, List.filterMap_cons, hk] using this
+      | bool b => simp at h
+      | num l => simp at h
+      | arr => simp at h
+      | obj f => simp at h
+    · simp only [hk, if_false] at h
+      have := ih cur h
+      simpa [exactStrings, List.filterMap_cons, hk] using this
+
+/-- **dispatched_name_is_exact_member.** Whenever the streamable handler hands over the single request of a body under
+≥ 2026-07-28 and the method is one of the named ones, `params` is an object and `Mcp-Name` is non-empty and equal to the
+string value of the LAST member called exactly `name` / `uri` — the value the dispatcher decodes and runs the tool /
+prompt / resource for — whatever other members (any casing, any value) the object carries. -/
+theorem dispatched_name_is_exact_member (c : B64) (r : Req) (hk : r.kind ≠ .sse) (b : Bool)
+    (h : verdict c r = .dispatched b) (m : RawMsg) (hs : soleMsg r = some m.decode) (hr : m.isReq = true)
+    (hv : standardHeadersSkipped r.version = false) (hn : namedMethods.contains m.method = true) :
+    ∃ key ms, nameMemberOf m.method = some key ∧ m.params = .obj ms ∧ r.mcpName ≠ [] ∧
+      (exactStrings key ms).getLast? = some r.mcpName := by
+  obtain ⟨_, _, hnm, _⟩ := (dispatch_sound c r hk b h).mirror m.decode hs hr hv
+  obtain ⟨hok, hname, hne⟩ := hnm hn
+  simp only [RawMsg.decode, Bool.and_eq_true] at hok hname
+  obtain ⟨_, hsome⟩ := hok
+  obtain ⟨s, hs'⟩ := Option.isSome_iff_exists.mp hsome
+  have hs'' : s = r.mcpName := by rw [hname, hs']; rfl
+  subst hs''
+  unfold decodeName at hs'
+  cases hkey : nameMemberOf m.method with
+  | none => simp [hkey] at hs'
+  | some key =>
+    simp only [hkey] at hs'
+    cases hp : m.params with
+    | absent => simp [hp] at hs'
+    | other => simp [hp] at hs'
+    | null =>
+      simp only [hp, Option.some.injEq] at hs'
+      exact absurd hs'.symm hne
+    | obj ms =>
+      simp only [hp] at hs'
+      refine ⟨key, ms, rfl, rfl, hne, ?_⟩
+      have hl := strFieldFrom_last key ms [] r.mcpName hs'
+      cases hg : (exactStrings key ms).getLast? with
+      | none => rw [hg] at hl; exact absurd hl hne
+      | some t => rw [hg] at hl; simp at hl; rw [hl]
+
 /-! ## Witnesses (non-vacuity) and the F6 counter-example for the unrepaired code -/
 
 /-- A lawful toy codec (identity) for the concrete witnesses. -/
@@ -1278,5 +1552,54 @@ issues no session ids is answered 400 by the unrepaired branch, where the size g
 theorem f30_unrepaired_answers_400 :
     ephemeralGateUnrepaired { wReq .stateful with noSessionIds := true, bodyLen := 4194305 } = some (rej 400) ∧
     bodyGate { wReq .stateful with noSessionIds := true, bodyLen := 4194305 } = some (rej 413) := by decide
+
+/-! ### witnesses: a decoy `"Name"` next to the real `"name"` -/
+
+def wName : Bytes := [110, 97, 109, 101]                          -- "name"
+def wNameCap : Bytes := [78, 97, 109, 101]                        -- "Name"
+def wDelete : Bytes := [100, 101, 108]                            -- "del"  (the tool the body really names)
+def wRead : Bytes := [114, 101, 97, 100]                          -- "read" (the decoy)
+
+/-- the hypotheses of `name_mirror_case_sensitive` are satisfiable by a genuine case variant -/
+example : nameMemberOf methodCallTool = some wName ∧ wNameCap ≠ wName ∧ lowerBytes wNameCap = lowerBytes wName ∧
+    wNameCap ≠ memberArguments ∧ wNameCap ≠ memberMeta := by decide
+
+/-- `{"_meta":{…2026-07-28},"name":"del","Name":"read"}` as a tools/call. -/
+def wDecoyMsg (ms : List (Bytes × JV)) : RawMsg :=
+  { isReq := true, method := methodCallTool, isCall := true, check := .ok, decodeOk := true,
+    params := .obj ((memberMeta, .obj [(metaKeyProtocolVersion, .str protocolVersion20260728)]) :: ms), tools := [] }
+
+def wDecoyReq (ms : List (Bytes × JV)) (mcpName : Bytes) : Req :=
+  { wReq .stateless with content := .msgs false [(wDecoyMsg ms).decode], mcpName := mcpName }
+
+/-- `Mcp-Name: read` (the decoy's value) is refused with -32020 whether the decoy stands after or before the real member … -/
+example : verdict idCodec (wDecoyReq [(wName, .str wDelete), (wNameCap, .str wRead)] wRead) = rejRpc 400 codeHeaderMismatch := by
+  decide
+example : verdict idCodec (wDecoyReq [(wNameCap, .str wRead), (wName, .str wDelete)] wRead) = rejRpc 400 codeHeaderMismatch := by
+  decide
+/-- … and `Mcp-Name: del` (the real member's value) is served, decoy or not -/
+example : verdict idCodec (wDecoyReq [(wName, .str wDelete), (wNameCap, .str wRead)] wDelete) = .dispatched true := by decide
+example : verdict idCodec (wDecoyReq [(wName, .str wDelete)] wDelete) = .dispatched true := by decide
+/-- a repeated `name` member: the last one is the one dispatched, and the one `Mcp-Name` must equal -/
+example : verdict idCodec (wDecoyReq [(wName, .str wRead), (wName, .str wDelete)] wDelete) = .dispatched true := by decide
+example : verdict idCodec (wDecoyReq [(wName, .str wRead), (wName, .str wDelete)] wRead) = rejRpc 400 codeHeaderMismatch := by
+  decide
+
+/-! ### preflight-F31: a repeated `arguments` member (counter-example for the unrepaired code) -/
+
+def wTenant : Bytes := [116, 101, 110, 97, 110, 116]              -- "tenant"
+def wEU : Bytes := [101, 117]                                     -- "eu"
+/-- `{"name":"t","arguments":{"region":"eu"},"arguments":{"tenant":"x"}}`: the handler receives `{"tenant":"x"}`. -/
+def wRepeated : RawParams :=
+  .obj [(wName, .str wTool), (memberArguments, .obj [(wRegion, .str wEU)]), (memberArguments, .obj [(wTenant, .str [120])])]
+
+/-- **preflight-F31 (counter-example for the unrepaired code).** With `Mcp-Param-Region: eu` the pinned decoding (merge)
+makes `validateParamHeaders` accept, although the arguments that are dispatched — the last member — have no `region`:
+against those the header is refused as unexpected. -/
+theorem f31_unrepaired_validates_merged :
+    validateParamHeaders idCodec wProps (decodeArgsUnrepaired wRepeated) [(lowerBytes wHeader, wEU)] = none ∧
+    validateParamHeaders idCodec wProps (decodeArgs wRepeated) [(lowerBytes wHeader, wEU)] = some .unexpected ∧
+    ((decodeArgs wRepeated).lookup [wRegion]).isNone = true ∧
+    ((decodeArgsUnrepaired wRepeated).lookup [wRegion]).isSome = true := by decide
 
 end Preflight
